@@ -28,6 +28,12 @@ func (f *Frame) buildFrameSpec(env *SpecEnv, mods []SExpr, now string) *frameSpe
 	fs := &frameSpec{refs: map[string][]string{}, names: map[string]bool{}, now: now}
 	for _, m := range mods {
 		lv := env.lvalue(m)
+		if len(lv.heapAll) > 0 {
+			for _, n := range lv.heapAll {
+				fs.names[n] = true
+			}
+			continue
+		}
 		if lv.globalsOf != nil {
 			fs.prefixes = append(fs.prefixes, "G_"+sanitize(lv.globalsOf.Pkg.Path()+"."))
 			continue
@@ -115,6 +121,9 @@ func (f *Frame) frameWrite(name, ref string, pos token.Pos) {
 			if !fs.nameAllowed(name) {
 				f.oblige(kind, name, "false", pos, nil, name+" is written but not listed in the "+what+" modifies clause")
 			}
+			return
+		}
+		if fs.names[name] {
 			return
 		}
 		g := fs.goal(name, ref)
